@@ -40,8 +40,13 @@ def bin_cases(draw):
     a, b = draw(st.integers(1, 5)), draw(st.integers(1, 5))
     lead = tuple(draw(st.sampled_from([(), (), (1,), (3,), (2, 2)])))
     shape = lead + (a * n, b * n)
-    dt = draw(st.sampled_from(["float64", "float32", "int64", "int32", "complex128", "uint8", "uint16", "int16", "bool"]))
-    if dt == "uint8":
+    dt = draw(st.sampled_from(["float64", "float32", "int64", "int32", "complex128", "uint8", "uint16", "int16", "bool", ">i2", ">u2", ">i4", ">f4"]))
+    if dt in (">i2", ">u2", ">i4", ">f4"):
+        # what a FITS reader hands out: big-endian containers (BITPIX 16 / 32 / -32), counts up to the full range of the type
+        hi = {">i2": 32767, ">u2": 65535, ">i4": 2**31 - 1, ">f4": 4096}[dt]
+        data = draw(gen.int_array(shape, 0, 1, dtype="int64")) * (hi - 7) + draw(gen.int_array(shape, 0, 7, dtype="int64"))
+        data = data.astype(dt)
+    elif dt == "uint8":
         data = draw(gen.int_array(shape, 0, 255, dtype=dt))                # raw 8-bit frames
     elif dt == "uint16":
         data = draw(gen.int_array(shape, 0, 4095, dtype=dt))               # 12-bit data in a 16-bit container
